@@ -20,18 +20,27 @@ def k1_generic(P, tier, seed, scratch, replay, can_run):
         total = counts[tier]
         extra = list(P.get("extra_args", {}).get(tier, []))
         corpus = corpus_files(P["id"]) if idx == 0 else []
+        regen = None
         if replay:
             import json
             rp = json.load(open(replay))
-            cf = os.path.join(scratch, "replay.case")
-            open(cf, "w").write(rp.get("case", "") + "\n")
-            corpus = [cf] if idx == 0 else []
-            total = 0
-            if idx > 0:
-                continue
+            regen = rp.get("regenerate")
+            if regen:
+                # the failing case is regenerated from its shard seed and case number and run again
+                if regen.get("subcmd") != subcmd:
+                    continue
+                extra = list(regen.get("extra_args", extra))
+                corpus = []
+            else:
+                cf = os.path.join(scratch, "replay.case")
+                open(cf, "w").write(rp.get("case", "") + "\n")
+                corpus = [cf] if idx == 0 else []
+                total = 0
+                if idx > 0:
+                    continue
         shards = 1 if total < 64 else min(vlib.NPROC, P.get("shards", vlib.NPROC))
         r = vlib.k1_run(subcmd, seed, total, shards, scratch, extra_args=extra, corpus=corpus,
-                        timeout=P.get("timeout", {}).get(tier, 3000))
+                        timeout=P.get("timeout", {}).get(tier, 3000), regen=regen)
         if P.get("beyond_known"):
             # once an OPEN known finding has manifested in a history (the oracle says so for that very case), the
             # state is outside the property and the model is not required to follow the code any further
@@ -346,9 +355,14 @@ prop(
 
 prop(
     id="C14", module="Properties.C14", vfile="Properties/C14.v", level="proof", subcmd="c14",
-    theorems=["C14_accepted_table_is_partitioned", "C14_no_slot_twice", "C14_no_slot_leaked", "C14_checked_table_satisfies_invariant", "C14_alloc_pops_free_list", "C14_alloc_extends_only_when_list_empty", "C14_free_pushes_on_free_list"],
+    subcmds=[("c14", {"quick": 640, "thorough": 40000, "search": 3200}), ("c14a", {"quick": 640, "thorough": 40000, "search": 3200})],
+    theorems=["C14_accepted_table_is_partitioned", "C14_no_slot_twice", "C14_no_slot_leaked", "C14_checked_table_satisfies_invariant", "C14_alloc_pops_free_list", "C14_alloc_extends_only_when_list_empty", "C14_free_pushes_on_free_list",
+              "C14_store_keeps_partition", "C14_remove_keeps_partition", "C14_reachable_tables_partitioned"],
     counts={"quick": 640, "thorough": 40000, "search": 3200},
-    rule="histories from six generators in turn (mixed hash/btree columns; counted columns; index growth with 66-90 keys sharing an index page; btree columns grown to 40-130 keys and thinned out; "
+    rule="(c14a, allocator correspondence) 6-30 operations on ONE value table - a fixed size tier (values of exactly the tier's capacity) or the multi-part table (values of 9-14 slots) - each "
+         "its own transaction, drained: store a value / remove the j-th live value; after every operation the raw table file is classified slot by slot and compared with the table the model's "
+         "astep predicts (which slot an allocation takes: free list first, LIFO, the fill mark only when the list is empty; how a chain is linked; in which order the slots of a removed chain "
+         "enter the free list). (c14) histories from six generators in turn (mixed hash/btree columns; counted columns; index growth with 66-90 keys sharing an index page; btree columns grown to 40-130 keys and thinned out; "
          "histories with drops at random pipeline states; value-size classes incl. multi-part chains), every third one interrupted at a random step by a process crash (directory copied while "
          "the handle is open, the copy opened: recovery), then drained and dropped; the harness reads every value-table file of every column itself and classifies every slot below the fill "
          "mark from its first bytes: one case per table for the extracted checker; per column the number of value chains is compared with what the live content needs; value iteration of every "
